@@ -87,7 +87,7 @@ Children(s)   == {c \in Stages : P.parent[c] = s}
 Kids(s, ph)   == {c \in Children(s) : P.owner[c] = ph}                \* synthetic children the builder creates
 First(s, ph)  == {c \in Kids(s, ph) : P.req[c] = {}}                   \* is_initial(): children may be chained among themselves
 InOrder(S)    == SelectSeq(P.stages, LAMBDA x : x \in S)       \* a set of stages in store order
-Downstream(s) == {d \in Stages : s \in P.req[d] /\ (P.instk[d] > 0 => d \in DOMAIN st)}
+Downstream(s) == {d \in Stages : s \in P.req[d] /\ d \in DOMAIN st}    \* (rows that exist: get_downstream_stages reads the database)
 Initial       == {s \in Static : P.req[s] = {}}
 SignalTargets == {s \in Stages : \E i \in DOMAIN P.tasks[s] : P.beh[P.tasks[s][i]].k = "suspend"}
 IdxStage(s)   == CHOOSE i \in DOMAIN P.stages : P.stages[i] = s
